@@ -951,248 +951,6 @@ func (m *mbModel) checkSingleWrite(c *kit.Ctx, o *kit.Ob, arm *mbArm, code int64
 	o.OK("one provider write per path; its error is returned through %s", m.Mapper.Name)
 }
 
-// c18Stores: in the register file, a store to an integer field of a register
-// element is reached only under address match and validator success.
-func c18Stores(c *kit.Ctx, m *mbModel, r *kit.Rule) {
-	// functions reachable from the writing interface methods of the concrete provider
-	reach := map[*kit.Func]bool{}
-	var work []*kit.Func
-	for i := 0; i < m.ProvIface.NumMethods(); i++ {
-		im := m.ProvIface.Method(i)
-		sig := im.Type().(*types.Signature)
-		if sig.Results().Len() != 1 || !isErrorType(sig.Results().At(0).Type()) {
-			continue
-		}
-		obj, _, _ := types.LookupFieldOrMethod(types.NewPointer(m.ProvImpl), true, m.pkg, im.Name())
-		if f := c.P.FuncOf(obj); f != nil && !reach[f] {
-			reach[f] = true
-			work = append(work, f)
-		}
-	}
-	for len(work) > 0 {
-		f := work[0]
-		work = work[1:]
-		for _, call := range f.AllCalls(false) {
-			if cf := f.CalleeFunc(call); cf != nil && cf.Decl != nil && cf.Pkg == f.Pkg && !reach[cf] {
-				reach[cf] = true
-				work = append(work, cf)
-			}
-		}
-	}
-	var fs []*kit.Func
-	for f := range reach {
-		fs = append(fs, f)
-	}
-	sort.Slice(fs, func(i, j int) bool { return fs[i].Pos() < fs[j].Pos() })
-	nStores := 0
-	for _, f := range fs {
-		info := f.Info()
-		ast.Inspect(f.Body, func(n ast.Node) bool {
-			as, ok := n.(*ast.AssignStmt)
-			if !ok {
-				return true
-			}
-			for _, l := range as.Lhs {
-				sel, ok := ast.Unparen(l).(*ast.SelectorExpr)
-				if !ok || mbBasicInt(info.TypeOf(sel)) == nil {
-					continue
-				}
-				ix, ok := ast.Unparen(sel.X).(*ast.IndexExpr)
-				if !ok {
-					continue
-				}
-				// the indexed slice is a field of the provider
-				bsel, ok := ast.Unparen(ix.X).(*ast.SelectorExpr)
-				if !ok {
-					continue
-				}
-				if s, ok := info.Selections[bsel]; !ok || s.Kind() != types.FieldVal {
-					continue
-				}
-				rt := info.TypeOf(bsel.X)
-				if p, isPtr := rt.Underlying().(*types.Pointer); isPtr {
-					rt = p.Elem()
-				}
-				if !types.Identical(rt, m.ProvImpl) {
-					continue
-				}
-				nStores++
-				m.checkStore(c, r, f, as, ix, bsel)
-			}
-			return true
-		})
-	}
-	if nStores == 0 {
-		r.Ob(nil, nil, "register store", "the register file stores written values").Undecided("no store to a register element found in the functions reachable from the provider's writing methods")
-	}
-}
-
-func (m *mbModel) checkStore(c *kit.Ctx, r *kit.Rule, f *kit.Func, store *ast.AssignStmt, ix *ast.IndexExpr, slice *ast.SelectorExpr) {
-	info := f.Info()
-	c.Analysed(f)
-	// the enclosing range over the same slice whose key indexes the store
-	var rs *ast.RangeStmt
-	if n := f.Enclosing(store, func(n ast.Node) bool {
-		x, ok := n.(*ast.RangeStmt)
-		return ok && kit.SameExpr(info, x.X, slice) && x.Key != nil && kit.ObjOf(info, x.Key) == kit.ObjOf(info, ix.Index)
-	}); n != nil {
-		rs = n.(*ast.RangeStmt)
-	}
-	oAddr := r.Ob(f, store, "store: address match", "the store is reached only for the element whose address equals the requested one; otherwise exception 2 and no store")
-	oVal := r.Ob(f, store, "store: validator", "with a validator that rejects the value the store is not reached and exception 3 is returned; without validator or with an accepting one the store is reached")
-	if rs == nil {
-		oAddr.Undecided("the store is not inside a range over %s keyed by its index", f.Str(slice))
-		oVal.Undecided("no enclosing range")
-		return
-	}
-	params := map[types.Object]bool{}
-	for _, p := range f.Params() {
-		params[p] = true
-	}
-	elemVar := kit.ObjOf(info, rs.Value)
-	isElem := func(e ast.Expr) bool {
-		e = ast.Unparen(e)
-		if elemVar != nil && kit.ObjOf(info, e) == elemVar {
-			return true
-		}
-		if ie, ok := e.(*ast.IndexExpr); ok {
-			return kit.SameExpr(info, ie.X, slice) && kit.ObjOf(info, ie.Index) == kit.ObjOf(info, rs.Key)
-		}
-		return false
-	}
-	elemField := func(e ast.Expr) (types.Object, bool) {
-		sel, ok := ast.Unparen(e).(*ast.SelectorExpr)
-		if !ok || !isElem(sel.X) {
-			return nil, false
-		}
-		s, ok := info.Selections[sel]
-		if !ok {
-			return nil, false
-		}
-		return s.Obj(), true
-	}
-	fromParam := func(e ast.Expr) bool {
-		e = ast.Unparen(e)
-		if call, ok := e.(*ast.CallExpr); ok && len(call.Args) == 1 {
-			if tv, ok := info.Types[call.Fun]; ok && tv.IsType() {
-				e = ast.Unparen(call.Args[0])
-			}
-		}
-		return params[kit.ObjOf(info, e)]
-	}
-	storedVal := kit.ObjOf(info, store.Rhs[0])
-	atom := func(e ast.Expr) (string, bool, bool) {
-		e = ast.Unparen(e)
-		if a, b, op, ok := kit.CmpAtom(e); ok && (op == token.EQL || op == token.NEQ) {
-			for _, pr := range [][2]ast.Expr{{a, b}, {b, a}} {
-				if fo, ok := elemField(pr[0]); ok {
-					if mbBasicInt(fo.Type()) != nil && fromParam(pr[1]) {
-						return "match", op == token.NEQ, true
-					}
-					if _, isFn := fo.Type().Underlying().(*types.Signature); isFn && kit.IsNilIdent(info, pr[1]) {
-						return "hasval", op == token.EQL, true
-					}
-				}
-			}
-		}
-		if call, ok := e.(*ast.CallExpr); ok && len(call.Args) == 1 {
-			if fo, ok := elemField(call.Fun); ok {
-				if _, isFn := fo.Type().Underlying().(*types.Signature); isFn && storedVal != nil && kit.ObjOf(info, call.Args[0]) == storedVal {
-					return "valok", false, true
-				}
-			}
-		}
-		return "", false, false
-	}
-	type verdict struct {
-		stored   bool
-		retCodes map[string]bool
-		unknown  []string
-	}
-	run := func(init kit.S) verdict {
-		st := &kit.Std{F: f}
-		st.Eval.Atom = atom
-		st.Eval.Consistent = func(s kit.S) bool { return true }
-		st.Eval.OnUnknown = nil
-		v := verdict{retCodes: map[string]bool{}}
-		st.OnBranch = func(br kit.Branch, s kit.S) (t, f []kit.S, handled bool) {
-			// a scenario with a matching element has at least one element
-			if br.Kind == kit.BrRange && br.Range == rs && s.Get("a:match") == "T" && !s.Has("it") {
-				return []kit.S{s.Set("it", "1")}, nil, true
-			}
-			return nil, nil, false
-		}
-		st.OnNode = func(n ast.Node, s kit.S) []kit.S {
-			if n == ast.Node(store) {
-				return []kit.S{s.Set("stored", "1")}
-			}
-			return []kit.S{s}
-		}
-		res := c.P.Graph(f).Run(init, st.Client())
-		c.AddValuations(1)
-		for _, e := range res.Exits {
-			if e.State.Get("stored") == "1" {
-				v.stored = true
-			}
-			if e.Return == nil || len(e.Return.Results) == 0 {
-				v.unknown = append(v.unknown, "exit without result")
-				continue
-			}
-			last := e.Return.Results[len(e.Return.Results)-1]
-			switch {
-			case kit.IsNilIdent(info, last):
-				v.retCodes["nil|stored="+e.State.Get("stored")] = true
-			default:
-				if k, ok := kit.ConstInt(info, last); ok && types.Identical(info.TypeOf(last), m.ExcType) {
-					v.retCodes[fmt.Sprintf("exc%d|stored=%s", k, e.State.Get("stored"))] = true
-				} else {
-					v.retCodes["?"+f.Str(last)] = true
-				}
-			}
-		}
-		return v
-	}
-	keys := func(m map[string]bool) string {
-		var ks []string
-		for k := range m {
-			ks = append(ks, k)
-		}
-		sort.Strings(ks)
-		return strings.Join(ks, ",")
-	}
-	// no element matches
-	v := run(kit.NewS().Set("a:match", "F"))
-	switch {
-	case v.stored:
-		oAddr.Violation("with no element matching the requested address the store `%s` is still reached", f.Str(store))
-	case len(v.retCodes) != 1 || !v.retCodes[fmt.Sprintf("exc%d|stored=", mbExcIllegalAddress)]:
-		oAddr.Violation("with no element matching the requested address the function returns {%s} instead of exception 2 (illegal data address)", keys(v.retCodes))
-	default:
-		oAddr.OK("match=false: store unreachable, returns exception 2")
-	}
-	// matching element, validator rejects
-	v = run(kit.NewS().Set("a:match", "T").Set("a:hasval", "T").Set("a:valok", "F"))
-	if v.stored {
-		oVal.Violation("a value rejected by the register's validator is still stored by `%s`", f.Str(store))
-		return
-	}
-	if len(v.retCodes) != 1 || !v.retCodes[fmt.Sprintf("exc%d|stored=", mbExcIllegalValue)] {
-		oVal.Violation("a value rejected by the validator yields {%s} instead of exception 3 (illegal data value)", keys(v.retCodes))
-		return
-	}
-	for _, init := range []kit.S{
-		kit.NewS().Set("a:match", "T").Set("a:hasval", "F"),
-		kit.NewS().Set("a:match", "T").Set("a:hasval", "T").Set("a:valok", "T"),
-	} {
-		v = run(init)
-		if !v.stored || len(v.retCodes) != 1 || !v.retCodes["nil|stored=1"] {
-			oVal.Violation("with a matching address and %s the outcomes are {%s}: the value must be stored and nil returned", init, keys(v.retCodes))
-			return
-		}
-	}
-	oVal.OK("rejecting validator: no store, exception 3; no validator / accepting validator: stored, nil")
-}
-
 // ---------------------------------------------------------------------------
 // R5 loops
 
